@@ -31,6 +31,7 @@ type nameDef struct {
 }
 
 type Frame struct {
+	subst bool // see leafExpr
 	g          *Gen
 	fn         *ssa.Function
 	sfx        string
@@ -367,6 +368,11 @@ func (g *Gen) globalAddr(v *ssa.Global) Val {
 // define binds an SSA value to a fresh SMT constant equal to the given term.
 func (f *Frame) define(v ssa.Value, x Val) Val {
 	if x.Sort == "Tuple" {
+		f.vals[v] = x
+		return x
+	}
+	if f.subst {
+		// substitution mode (leafExpr): values stay expressions so that they may mention bound variables
 		f.vals[v] = x
 		return x
 	}
